@@ -42,7 +42,8 @@ def build_cases(t, palette, pairs, seed):
     # ---- pair family (TLC-enumerated), sampled in quick
     idx = list(range(len(pairs)))
     if t["pair"] is not None and t["pair"] < len(idx):
-        idx = sorted(rng.sample(idx, t["pair"]))
+        zero = [k for k in idx if pairs[k]["cls"] == "zero"]
+        idx = sorted(set(rng.sample(idx, t["pair"])) | set(rng.sample(zero, min(len(zero), t["pair"] // 10))))
     for k in idx:
         c = pairs[k]
         if c["cls"] in ("at", "mpat") and not clash.at_reading_agrees(c["ta"], c["tb"], c["d"], palette):
